@@ -314,16 +314,20 @@ func (s *Stream) close() error {
 				return nil
 			}
 			// notify peer
-			err := s.session.sendQueue().put(queueElement{seqID: s.id, status: uint32(streamClosed)})
-			if err != nil {
+			// once the stream sends its data through the connection (fallback state), the close must follow the data on
+			// the connection as well: a close element in the queue could be consumed before the data has been read.
+			if !s.inFallbackState {
+				err := s.session.sendQueue().put(queueElement{seqID: s.id, status: uint32(streamClosed)})
+				if err == nil {
+					return s.session.wakeUpPeer()
+				}
 				atomic.AddUint64(&s.session.stats.queueFullErrorCount, 1)
-				// notify fallback
-				var streamCloseEvent [headerSize + 4]byte
-				header(streamCloseEvent[:]).encode(headerSize+4, s.session.communicationVersion, typeStreamClose)
-				binary.BigEndian.PutUint32(streamCloseEvent[headerSize:], s.id)
-				return s.session.waitForSend(nil, streamCloseEvent[:])
 			}
-			return s.session.wakeUpPeer()
+			// notify fallback
+			var streamCloseEvent [headerSize + 4]byte
+			header(streamCloseEvent[:]).encode(headerSize+4, s.session.communicationVersion, typeStreamClose)
+			binary.BigEndian.PutUint32(streamCloseEvent[headerSize:], s.id)
+			return s.session.waitForSend(nil, streamCloseEvent[:])
 		}
 	}
 	return nil
